@@ -115,6 +115,8 @@ def kept_flags(job, res, trace):
 def model_checks(rep, tier):
     runs = [("Driver_MC", "Driver_MC.cfg" if tier == "quick" else "Driver_MC4.cfg"),
             ("Driver_MC", "Driver_MC_2f.cfg"), ("Diag_MC", "Diag_MC.cfg")]
+    if tier != "quick":
+        runs.append(("Diag_MC", "Diag_MC_Wrap8.cfg"))      # closed forms also describe wrapping counters
     def one(mc):
         mod, cfg = mc
         return tlc.must(tlc.run(mod, cfg, workers=2, timeout=1500, mem="6g", collect=False), "%s(%s)" % (mod, cfg))
